@@ -61,6 +61,13 @@ type GenOpts struct {
 	// thunder validates a fragment inside an object against that object's type
 	// and applies it. Doc.Foreign counts them; see EvalForeign.
 	PForeign float64
+	// PUnionInObject adds, inside Node and Leaf selection sets, a fragment typed
+	// on a union that has the object's type as a member (valid GraphQL: the type
+	// conditions overlap), inline or named. Its body selects __typename and / or
+	// a fragment typed on the object's own type again, so thunder's rule (every
+	// fragment inside an object applies and is validated against that object)
+	// and GraphQL's agree on the result. Doc.UnionInObject counts them.
+	PUnionInObject float64
 }
 
 func DefaultGenOpts() GenOpts {
@@ -315,6 +322,44 @@ func (g *generator) namedFrag(typ string, depth int) *Frag {
 	return &Frag{Named: fd.Name, On: typ, Set: fd.Set, Dirs: g.dirs()}
 }
 
+// unionInObject: see GenOpts.PUnionInObject.
+func (g *generator) unionInObject(typ string, depth int) *Frag {
+	unions := []string{"Thing"}
+	if typ == "Leaf" && !g.o.AvoidTypes["Solo"] && g.sd.Types["Solo"] != nil {
+		unions = append(unions, "Solo")
+	}
+	u := unions[g.r.Intn(len(unions))]
+	g.doc.UnionInObject++
+	key := u + "@" + typ
+	if ds := g.done[key]; len(ds) > 0 && g.r.Intn(3) == 0 {
+		fd := ds[g.r.Intn(len(ds))]
+		return &Frag{Named: fd.Name, On: u, Set: fd.Set, Dirs: g.dirs()}
+	}
+	body := &SelSet{}
+	kind := g.r.Intn(3)
+	if kind != 1 {
+		body.Items = append(body.Items, SelItem{Field: &Field{Name: "__typename", Alias: g.alias("__typename", nil), Dirs: g.dirs()}})
+	}
+	if kind != 0 {
+		if g.r.Intn(3) == 0 && depth > 1 {
+			body.Items = append(body.Items, SelItem{Frag: g.namedFrag(typ, depth)})
+		} else {
+			body.Items = append(body.Items, SelItem{Frag: &Frag{On: typ, Set: g.set(typ, depth), Dirs: g.dirs()}})
+		}
+		if g.r.Intn(2) == 0 {
+			body.Items[0], body.Items[len(body.Items)-1] = body.Items[len(body.Items)-1], body.Items[0]
+		}
+	}
+	if g.r.Intn(2) == 0 {
+		return &Frag{On: u, Set: body, Dirs: g.dirs()}
+	}
+	g.nFrag++
+	fd := &FragDef{Name: fmt.Sprintf("F%d", g.nFrag), On: u, Set: body}
+	g.doc.Frags = append(g.doc.Frags, fd)
+	g.done[key] = append(g.done[key], fd)
+	return &Frag{Named: fd.Name, On: u, Set: fd.Set, Dirs: g.dirs()}
+}
+
 // excluding returns one directive that excludes its node.
 func (g *generator) excluding() []Dir {
 	name, b := "skip", true
@@ -471,6 +516,8 @@ func (g *generator) set(typ string, depth int) *SelSet {
 		switch {
 		case (typ == "Node" || typ == "Leaf") && g.p(g.o.PForeign):
 			s.Items = append(s.Items, SelItem{Frag: g.commonFrag(typ)})
+		case (typ == "Node" || typ == "Leaf") && depth > 1 && !g.o.NoUnions && !g.o.AvoidTypes["Thing"] && g.p(g.o.PUnionInObject):
+			s.Items = append(s.Items, SelItem{Frag: g.unionInObject(typ, depth-1)})
 		case typ == "Mutation":
 			// mutation fields are selected directly (they are all object-valued)
 			f := g.field(t, depth, false)
